@@ -226,17 +226,30 @@ def junction_versors(frame, fit, vidx):
 
 
 def static_events(case, t, k, sim, rng, want, build_opts=None, solve_opts=None, ids=None, resample=None,
-                  equilibrium=True, extra_env=None, group=None, with_pressure=False, phys=None):
+                  equilibrium=True, extra_env=None, group=None, with_pressure=False, phys=None, inplace_from=None):
     """Run the real pipeline once; returns the list of trace events (all ints/strings/bools)."""
     import forsys as fs
     build_opts = dict(build_opts or {})
     solve_opts = dict(solve_opts or {})
     evs = []
-    o = make_case_objects(t, k, sim, rng, ids=ids, resample=resample, **(group or {}))
+    o = make_case_objects(t, k, inplace_from or sim, rng, ids=ids, resample=resample, **(group or {}))
     vertices, edges, cells = o["vertices"], o["edges"], o["cells"]
+    frame = fs.frames.Frame(0, vertices, edges, cells, time=0)
+    pre_forsys = None
+    if inplace_from is not None:
+        # the tissue is first analysed at another embedding, then ALL vertex coordinates are transformed in place on the
+        # live objects (as Frame.filter_edges or TimeSeries(cm=True) do) and the analysis is repeated on the same objects
+        pre_forsys = fs.ForSys({0: frame}, cm=False)
+        try:
+            pre_forsys.build_force_matrix(when=0, angle_limit=float("inf"), circle_fit_method=(build_opts or {}).get("fit", "dlite"))
+            pre_forsys.solve_stress(when=0)
+        except Exception:
+            pass
+        for vid, mp in o["info"]["model"].items():
+            if vid in vertices:
+                vertices[vid].x, vertices[vid].y = sim.apply(mp)
     m, vidx, eidx, cidx = project.project_mesh(vertices, edges, cells)
     evs.append({"case": case, "ev": "Mesh", "mesh": m, "raised": "", "src": "infer"})
-    frame = fs.frames.Frame(0, vertices, edges, cells, time=0)
     f = project.project_frame(frame, vidx, eidx, cidx, lookups=False)
     evs.append({"case": case, "ev": "Frame", "f": f, "raised": ""})
     desc_cells = [c[0] for c in o["desc"]["C"]]
@@ -255,7 +268,7 @@ def static_events(case, t, k, sim, rng, want, build_opts=None, solve_opts=None, 
     if extra_env:
         extra.update(extra_env)
     evs.append(env_event(case, t, k, sim, o["info"], vidx, cell_of_model, want, extra, frame=frame))
-    forsys = fs.ForSys({0: frame}, cm=False)
+    forsys = pre_forsys or fs.ForSys({0: frame}, cm=False)
     lim, lim_kind, lim_cos = limit_desc(build_opts.get("limit", "pi"))
     fit = build_opts.get("fit", "dlite")
     ign4 = bool(build_opts.get("ignore_four", False))
@@ -715,6 +728,7 @@ def pair_events(case, spec, rng):
         sub = static_events(case, t, k, sim, rng, spec["want"], build_opts=spec.get("build"), solve_opts=spec.get("solve"),
                             ids=ids, resample=None, equilibrium=spec["tissue"]["kind"] == "equilibrium" and not spec["tissue"].get("noise"),
                             group=group, with_pressure=spec.get("pressure", True), phys=(run, g),
+                            inplace_from=simA if (run == 2 and spec.get("inplace")) else None,
                             extra_env={"tolC": fx(tol) if tol else 0, "conditioned": tol is not None})
         evs += sub
     return evs
